@@ -190,8 +190,9 @@ func c11Resolve(tbl c11Table, in rtoks, di int, nontrivial bool) Case {
 	}
 	input := conc(in, d)
 	type outcome struct {
-		res, res2       string
-		panicv, panicv2 string
+		res, res2, res3, res4    string
+		panicv, panicv2, panicv3 string
+		storeChanged             string
 	}
 	ch := make(chan outcome, 1)
 	c11Count++
@@ -217,6 +218,20 @@ func c11Resolve(tbl c11Table, in rtoks, di int, nontrivial bool) Case {
 		}
 		c11LiveTbl[di] = m
 		o.panicv2 = guard(func() { o.res2 = c11Live[di].Resolve(input) })
+		// a lookup function may hand out pointers into its own storage: the resolver only READS what it is given — asked
+		// twice it answers twice the same, and the table is as it was
+		store := map[string]*string{}
+		for k, v := range m {
+			vv := v
+			store[k] = &vv
+		}
+		pr := props.Builder().Prefix(d[0]).Suffix(d[1]).ValueSeparator(d[2]).LookupFunc(func(k string) *string { return store[k] }).MustBuild()
+		o.panicv3 = guard(func() { o.res3 = pr.Resolve(input); o.res4 = pr.Resolve(input) })
+		for k, v := range m {
+			if store[k] == nil || *store[k] != v {
+				o.storeChanged = fmt.Sprintf("the value of %q was %q and is now %q", k, v, *store[k])
+			}
+		}
 		ch <- o
 	}()
 	var o outcome
@@ -276,6 +291,13 @@ func c11Resolve(tbl c11Table, in rtoks, di int, nontrivial bool) Case {
 	cyc2 := strings.HasPrefix(o.panicv2, "Circular placeholder reference")
 	if (o.panicv == "" || cyc1) && (cyc1 != cyc2 || (!cyc1 && (o.panicv2 != "" || o.res2 != o.res))) {
 		fail = append(fail, fmt.Sprintf("a long-lived resolver (same delimiters, lookup function reading the current table) answered %q / panic %q, a fresh one %q / panic %q", o.res2, o.panicv2, o.res, o.panicv))
+	}
+	cyc3 := strings.HasPrefix(o.panicv3, "Circular placeholder reference")
+	if (o.panicv == "" || cyc1) && (cyc1 != cyc3 || (!cyc1 && (o.panicv3 != "" || o.res3 != o.res || o.res4 != o.res))) {
+		fail = append(fail, fmt.Sprintf("a resolver whose lookup function hands out pointers into its own table answered %q then %q / panic %q, a fresh one over a copy %q / panic %q", o.res3, o.res4, o.panicv3, o.res, o.panicv))
+	}
+	if o.storeChanged != "" {
+		fail = append(fail, "resolving wrote into the table the lookup function reads: "+o.storeChanged)
 	}
 	if c11Count%200 == 1 { // fixed probes outside the token alphabet, once per 200 cases and delimiter triple in turn
 		fail = append(fail, c11Probe(di)...)
